@@ -189,7 +189,7 @@ def _same_lock(repo_lock, harness_lock):
     return pk(repo_lock) - {("rawdb", "0.10.3")} <= pk(harness_lock) | {("vecdb_bench", "0.10.3")} or pk(repo_lock) <= pk(harness_lock)
 
 
-def run_harness(engine, args, stdout_path=None, timeout=3000):
+def run_harness(engine, args, stdout_path=None, timeout=6000):
     cmd = [HARNESS_BIN, engine] + args
     if stdout_path:
         with open(stdout_path, "w") as f:
@@ -199,7 +199,7 @@ def run_harness(engine, args, stdout_path=None, timeout=3000):
     return p.returncode, p.stdout + p.stderr
 
 
-def run_driver(engine, ops_path, out_path, timeout=3000):
+def run_driver(engine, ops_path, out_path, timeout=6000):
     with open(ops_path) as fi, open(out_path, "w") as fo:
         p = subprocess.run([DRIVER_BIN, engine], stdin=fi, stdout=fo, stderr=subprocess.PIPE, text=True, timeout=timeout)
     return p.returncode, p.stderr
